@@ -131,6 +131,19 @@ def evaluate(c):
         chk('NF-E-' + c['env'], np.linalg.norm(E[0] - Er) / np.linalg.norm(Er), 0.01, 'E at %s (%.2f x max(L,0.01 lambda) from the conductors) differs from the field of the solved currents' % (np.round(p, 4), 1))
         chk('NF-H-' + c['env'], np.linalg.norm(H[0] - Hr) / np.linalg.norm(Hr), 0.01, 'H at %s differs from the field of the solved currents' % (np.round(p, 4),))
         canon.append('%s|pt%d' % (name, i))
+    # time measurement switched on: same field for a requested power level
+    if pts:
+        import contextlib, io
+        E0, H0 = obs.near(m, [pts[0]], pwr=100.0)
+        m.do_timing = True
+        try:
+            with contextlib.redirect_stderr(io.StringIO()):
+                E1, H1 = obs.near(m, [pts[0]], pwr=100.0)
+        finally:
+            m.do_timing = False
+        n += 1
+        chk('NF-TIMING', float(max(np.abs(E1[0] - E0[0]).max() / np.abs(E0[0]).max(), np.abs(H1[0] - H0[0]).max() / np.abs(H0[0]).max())), 1e-12,
+            'near field for 100 W changes when time measurement is switched on')
     # far region
     cen = np.mean([np.array(s.p1, float) for g in m.geo for s in g.segments], axis=0)
     dirs = [d for d in FARDIRS if not ground or d[0] <= 85]
